@@ -576,6 +576,17 @@ type FuncContract struct {
 	Requires []Clause
 	Ensures  []Clause
 	Assumes  []Clause // post-conditions assumed at call sites but NOT checked against the body (reported as trusted)
+	// Defines: (interface-method contracts) post-conditions that define the evolution of ghost history state of the
+	// interface value per call; assumed at call sites; for in-repo implementations they are the definition of that
+	// ghost state (history variables), while the plain `ensures` of the interface contract must be proved (refinement).
+	Defines []Clause
+	// Repeats: "param.Method" — the (extern) callee calls param.Method any number of times with buffers of its own.
+	Repeats []string
+	// Stream: two-state invariants (over old()) of an in-repo method that are preserved by every call of the method
+	// (and hold reflexively); used to summarise an unknown number of calls made by a `repeats` callee.
+	Stream []Clause
+	// Implements: key of the interface-method contract this in-repo method refines, e.g. "(io.Reader).Read".
+	Implements string
 	Assigns  *AssignsSpec
 	Loops    map[int]*LoopSpec
 	Decr     []Expr
@@ -654,7 +665,7 @@ func ParseFile(path, text string, goFile bool) (*File, error) {
 	}
 	// group lines into logical clauses: a clause starts with a keyword at the
 	// beginning of the (trimmed) line; other lines continue the previous one.
-	kw := []string{"package", "import", "sort", "pure", "ghost", "lemma", "axiom", "func", "extern", "requires", "ensures", "assigns", "loop", "invariant", "decreases", "use", "inline", "noinline", "trusted", "opaque", "trigger", "invokes", "assumes"}
+	kw := []string{"package", "import", "sort", "pure", "ghost", "lemma", "axiom", "func", "extern", "requires", "ensures", "assigns", "loop", "invariant", "decreases", "use", "inline", "noinline", "trusted", "opaque", "trigger", "invokes", "assumes", "defines", "repeats", "stream", "implements"}
 	var clauses []string
 	for _, ln := range lines {
 		t := strings.TrimSpace(ln)
@@ -752,7 +763,17 @@ func ParseFile(path, text string, goFile bool) (*File, error) {
 			fc.Loops = map[int]*LoopSpec{}
 			f.Funcs = append(f.Funcs, fc)
 			curF, curLoop, curPure, curLemma = fc, nil, nil, nil
-		case "requires", "ensures", "invariant", "assumes":
+		case "repeats":
+			if curF == nil {
+				return nil, fail(fmt.Errorf("repeats outside func"))
+			}
+			curF.Repeats = append(curF.Repeats, strings.FieldsFunc(rest, func(r rune) bool { return r == ',' || r == ' ' })...)
+		case "implements":
+			if curF == nil {
+				return nil, fail(fmt.Errorf("implements outside func"))
+			}
+			curF.Implements = strings.TrimSpace(rest)
+		case "requires", "ensures", "invariant", "assumes", "defines", "stream":
 			cl, err := parseClause(rest)
 			if err != nil {
 				return nil, fail(err)
@@ -769,6 +790,10 @@ func ParseFile(path, text string, goFile bool) (*File, error) {
 				curF.Requires = append(curF.Requires, cl)
 			case word == "assumes":
 				curF.Assumes = append(curF.Assumes, cl)
+			case word == "defines":
+				curF.Defines = append(curF.Defines, cl)
+			case word == "stream":
+				curF.Stream = append(curF.Stream, cl)
 			default:
 				curF.Ensures = append(curF.Ensures, cl)
 			}
